@@ -189,7 +189,9 @@ class World(object):
         from afkak.client import KafkaClient
         ccfg = dict(self.cfg.get("client", {}))
         ccfg.update(over)
-        reactor = ProcReactor(self.sim, pid)
+        late = self.cfg.get("late_timers") or 0.0
+        # a busy reactor fires timers late, never early
+        reactor = ProcReactor(self.sim, pid, lateness=(self.sim.rng("late/%s" % pid), late) if late else None)
         table = ccfg.get("retry", [0.05, 0.1, 0.2])
         calls = []
 
